@@ -23,7 +23,10 @@ struct nv_tuple_i64_b_u8 { int64_t _0; _Bool _1; uint8_t _2; };                 
 struct nv_t2d { int64_t rows, cols; };           /* tensor2d_map_t: dimensions only */
 struct nv_seg { int64_t row, off, n; };          /* (segment of) a row of the buffer: row, first column, length */
 struct nv_gen { double NaN; };                   /* generator_t::NaN (static constexpr quiet NaN) */
+#ifndef NV_OP_DEFINED
+#define NV_OP_DEFINED
 struct nv_op { int32_t unused; };                /* the stateless label operator returned by process() */
+#endif
 
 int64_t nv_nsamples;                 /* ghost: N = samples() of the data source */
 int64_t nv_gr, nv_gcol;              /* ghost cell of the flatten buffer: row (= position in the sample list), absolute column */
